@@ -237,11 +237,22 @@ fn byzantine_deliveries(rng: &mut Prng, or: &Oracles, n: usize, out: &mut Vec<De
 }
 
 fn honest_deliveries<V: Variant>(rng: &mut Prng, pool: &world::KeyPool<V>, count: usize, out: &mut Vec<Delivery>) {
-    for _ in 0..count {
+    // decode two keys of the pool inside this run's process
+    let mut loaded = Vec::new();
+    for _ in 0..2 {
         let k = rng.pick(&pool.keys);
+        if let Ok((sk, _pk)) = k.load() {
+            loaded.push((sk, k));
+        }
+    }
+    if loaded.is_empty() {
+        return;
+    }
+    for _ in 0..count {
+        let (sk, k) = &loaded[rng.usize_below(loaded.len())];
         let msg = world::message(rng);
         let plan = SignPlan::uniform(rng.next_u64());
-        if let (Ok(sig), _) = world::sign_sim::<V>(&k.sk, &msg, &plan, None) {
+        if let (Ok(sig), _) = world::sign_sim::<V>(sk, &msg, &plan, None) {
             out.push(Delivery {
                 n: V::N,
                 target: Target::Verify,
@@ -410,8 +421,14 @@ pub fn corpus(report: &mut Report) {
     }
 }
 
-pub fn check(tier: Tier, seed: u64) -> i32 {
-    let mut rep = Report::new(PROP, tier, seed);
+pub struct Ctx {
+    pub pools: Pools,
+    pub or: Oracles,
+    pub runs: u64,
+    pub per_run: usize,
+}
+
+pub fn context(tier: Tier, seed: u64) -> Result<Ctx, String> {
     let w = report::workers();
     let (runs, per_run, k512, k1024) = match tier {
         Tier::Quick => (320u64, 600usize, 12, 4),
@@ -419,12 +436,28 @@ pub fn check(tier: Tier, seed: u64) -> i32 {
     };
     let pools = Pools::build(report::run_seed(seed, "pool", 0), k512, k1024, 6, w);
     if !pools.usable() {
-        eprintln!("HARNESS-ERROR: key pool could not be built on the current tree");
-        return 2;
+        return Err("key pool could not be built on the current tree".into());
     }
-    let or = Oracles::new();
+    Ok(Ctx { pools, or: Oracles::new(), runs, per_run })
+}
+
+pub fn rerun(tier: Tier, seed: u64, run: u64) -> Option<RunOutcome> {
+    let ctx = context(tier, seed).ok()?;
+    Some(one_run(seed, run, &ctx.pools, &ctx.or, ctx.per_run))
+}
+
+pub fn check(tier: Tier, seed: u64) -> i32 {
+    let mut rep = Report::new(PROP, tier, seed);
+    let w = report::workers();
+    let ctx = match context(tier, seed) {
+        Ok(c) => c,
+        Err(e) => {
+            eprintln!("HARNESS-ERROR: {}", e);
+            return 2;
+        }
+    };
     corpus(&mut rep);
-    let out = report::parallel_runs(runs, w, |run| one_run(seed, run, &pools, &or, per_run));
+    let out = report::parallel_runs(ctx.runs, w, |run| one_run(seed, run, &ctx.pools, &ctx.or, ctx.per_run));
     rep.absorb(out);
     rep.rule = "a case is one (msg, sig, pk) triple delivered to a verifier node: fresh honest signatures, the same through bit flips / overwrites / splices / torn writes of signature or key, Byzantine exact-norm triples (Z1: norm = T chosen at, one below and one above floor(beta^2) of either variant, optionally with an s1 coordinate at +-6144), non-canonical re-encodings of those (Z2: negative zero, padding bit, 256/512/1024 extra unary zeros), grammar-aware crafted bodies, plus duplicated and reordered deliveries; non-trivial = both inputs decode and the compressed part is well-formed, so the verdict is decided by the norm test; distinct = distinct triples".into();
     rep.assumptions = vec![
